@@ -11,6 +11,9 @@ LIBLZMA = "liblzma 5.8 (xz) linked statically through the liblzma crate is trust
 WALKERS = "the harness's own LZMA2/XZ/LZIP walkers (validated against liblzma-made files) give structural ground truth"
 
 ENGINES = [
+    {"name": "lzv_tx", "path": "/verif/harness_tx", "serves_properties": ["C14"],
+     "kind_free_text": "transcript producer compiled against four feature configurations of the crate (std/no_std x "
+                       "optimization on/off); transcripts are compared offline by the runner"},
     {"name": "lzv", "path": "/verif/harness", "serves_properties": [f"C{i:02d}" for i in range(1, 20)],
      "kind_free_text": "Rust harness crate (path-depends on /repo, hooks on): seeded workload generators, fault-injecting "
                        "I/O, independent format walkers, liblzma reference model, oracles; run as parallel shard processes"},
@@ -347,6 +350,34 @@ PROPS = {
         },
         "assumptions": ["schedules are sampled"],
     },
+    "C14": {
+        "level": "other",
+        "custom": "check_c14",
+        "floors": [],
+        "min_cells": 2,
+        "explanation": "Offline checker over recorded transcripts: one producer program (harness_tx) is compiled four times "
+                       "against lzma-rust2 built as {std, no_std} x {optimization, no optimization} (hooks on in all four) and "
+                       "runs the same seeded case list: encode cases for .lzma/LZMA2/XZ/LZIP with in-range options (a third "
+                       "with the lz_pos bias so that 31-bit renormalisation happens inside real encodes, on plain Vec tables "
+                       "in the non-optimization builds), the valid decode of each result, four seeded corruptions of each "
+                       "result, 1500 tiny LZMA2 chunks whose range-coder data ends inside a direct-bits run, 4000 "
+                       "normalisation kernel runs (dispatch and scalar against the specification max(p-off,0), every slice "
+                       "alignment 0..15, lengths 0..70, values around the offset / 0 / i32::MAX) and 3000 decode_direct_bits "
+                       "runs on caller-supplied state incl. runs past the end of the buffer. Each line records hash of the "
+                       "compressed bytes, or bytes decoded + hash + Ok/error kind in a common vocabulary. The checker demands "
+                       "line-by-line equality of the four transcripts and zero specification mismatches.",
+        "rule": "see explanation; evaluations = transcript lines compared between the default build and each other build; "
+                "cells = line kinds",
+        "manifest": {
+            "text": "Offline differential check over recorded transcripts of four feature builds of the real crate executing "
+                    "the same seeded workload; any differing line is a violation.",
+            "note": "aarch64 NEON / asm twins and wasm32 cannot run on this x86-64 host; MT types and liblzma are not part of "
+                    "the transcripts (not available in no_std).",
+            "technique": "runtime monitoring: offline trace checker (transcript equality across feature configurations)",
+            "engine": "lzv_tx",
+        },
+        "assumptions": ["x86-64 host only (AVX2/SSE4.1 + x86-64 asm vs scalar/portable)"],
+    },
     "C15": {
         "level": "exploration",
         "variants": {
@@ -473,11 +504,126 @@ PROPS = {
 }
 
 
+TX_VARIANTS = [("tx-std-opt", "std optimization"), ("tx-std-noopt", "std"), ("tx-nostd-opt", "optimization"),
+               ("tx-nostd-noopt", "")]
+
+
+def build_tx(p, name, features):
+    tx = os.path.join(p.root, "harness_tx")
+    lock = os.path.join(tx, "Cargo.lock")
+    if not os.path.exists(lock):
+        import shutil
+        shutil.copy(os.path.join(vlib.REPO, "Cargo.lock"), lock)
+    env = vlib.base_env()
+    env["RUSTFLAGS"] = vlib.GUARD
+    env["CARGO_TARGET_DIR"] = os.path.join(p.build, name)
+    cmd = ["cargo", "build", "--release", "--offline"]
+    if features:
+        cmd += ["--features", features]
+    r = subprocess.run(cmd, cwd=tx, env=env, stdout=subprocess.PIPE, stderr=subprocess.STDOUT, text=True)
+    if r.returncode != 0:
+        log(f"[build {name}] FAILED\n" + r.stdout[-3000:])
+        return None
+    return os.path.join(p.build, name, "release", "lzv_tx")
+
+
+def check_c14(p, prop, tier, seed, cfg):
+    """Offline checker over recorded transcripts of four feature configurations."""
+    import shutil
+    import time
+    import concurrent.futures as cf
+    shutil.rmtree(os.path.join(p.replays, prop), ignore_errors=True)
+    v = vlib.Verdict(prop, tier, seed, cfg["level"])
+    bins = {}
+    with cf.ThreadPoolExecutor(max_workers=4) as ex:
+        futs = {name: ex.submit(build_tx, p, name, feats) for name, feats in TX_VARIANTS}
+        for name, f in futs.items():
+            bins[name] = f.result()
+    if any(b is None for b in bins.values()):
+        v.inconclusive.append("build of a transcript variant failed")
+        return vlib.finish(p, v, cfg)
+    n_enc = 12000 if tier == "thorough" else 1200
+    nsh = 16
+    logdir = os.path.join(p.logs, prop)
+    shutil.rmtree(logdir, ignore_errors=True)
+    os.makedirs(logdir, exist_ok=True)
+
+    def run(name, sh):
+        out = os.path.join(logdir, f"{name}.{sh}.txt")
+        with open(out, "w") as f:
+            r = subprocess.run([bins[name], str(seed), str(n_enc), str(sh), str(nsh)], stdout=f, stderr=subprocess.DEVNULL,
+                               timeout=3 * 3600)
+        return name, sh, r.returncode, out
+
+    results = {}
+    with cf.ThreadPoolExecutor(max_workers=vlib.NCPU) as ex:
+        for name, sh, rc, out in ex.map(lambda a: run(*a), [(n, s) for n, _ in TX_VARIANTS for s in range(nsh)]):
+            results[(name, sh)] = (rc, out)
+            if rc != 0:
+                v.inconclusive.append(f"{name} shard {sh} exited with {rc}")
+    base = TX_VARIANTS[0][0]
+    kinds = {"E": "compressed-bytes", "V": "valid-decode", "D": "corrupt-decode", "T": "tiny-chunk-decode",
+             "B": "direct-bits-kernel", "N": "normalize-kernel"}
+    lines_compared = 0
+    per_kind = {}
+    viol = {}
+    samples = []
+    nspec = {}
+    roundtrip_fail = 0
+    for sh in range(nsh):
+        base_lines = [l.rstrip("\n") for l in open(results[(base, sh)][1]) if not l.startswith("#")]
+        if sh == 0 and len(samples) < 6:
+            samples.extend(base_lines[:3] + [l for l in base_lines if l.startswith(("T ", "B ", "N"))][:3])
+        for l in base_lines:
+            if l.startswith("V ") and "roundtrip=0" in l:
+                roundtrip_fail += 1
+        for name, _ in TX_VARIANTS:
+            lines = [l.rstrip("\n") for l in open(results[(name, sh)][1]) if not l.startswith("#")]
+            for l in lines:
+                if l.startswith("NSPEC"):
+                    m = l.split()
+                    cnt = int(m[2].split("=")[1])
+                    if cnt:
+                        nspec.setdefault((name, m[1]), l)
+            if name == base:
+                continue
+            if len(lines) != len(base_lines):
+                viol.setdefault(f"transcript-length-differs {base} vs {name}", []).append(f"{len(base_lines)} vs {len(lines)} lines (shard {sh})")
+            for a, b in zip(base_lines, lines):
+                if a.startswith("NSPEC"):
+                    continue
+                lines_compared += 1
+                k = kinds.get(a[:1], "other")
+                per_kind[k] = per_kind.get(k, 0) + 1
+                if a != b:
+                    viol.setdefault(f"transcript-differs {k} {base} vs {name}", []).append(f"{a}  ||  {b}")
+    for (name, which), l in nspec.items():
+        viol.setdefault(f"normalize-{which}-differs-from-specification {name}", []).append(l)
+    v.evaluations = lines_compared
+    v.held = lines_compared
+    for k, n in per_kind.items():
+        v.cells[k] = [n, n]
+    v.samples = samples
+    v.extra["x_lines_compared_per_kind"] = per_kind
+    v.extra["x_configurations"] = [f"{n} (features: {f or 'none'} + encoder,xz,lzip)" for n, f in TX_VARIANTS]
+    v.extra["x_roundtrip_failures_in_baseline_transcript"] = roundtrip_fail
+    for sig, items in viol.items():
+        v.violations.append({"sig": sig, "detail": items[0][:600], "desc": f"{len(items)} differing line(s); first shown", "cell": "transcript",
+                             "variant": "tx", "idx": -1})
+        v.sig_counts[sig] = len(items)
+    if lines_compared == 0:
+        v.inconclusive.append("no transcript lines were compared")
+    return vlib.finish(p, v, cfg)
+
+
 def setup(p):
     os.makedirs(p.build, exist_ok=True)
     ok = True
     for variant in ["rel", "dbg", "asan", "tsan", "miri"]:
         if vlib.build(p, variant) is None:
+            ok = False
+    for name, feats in TX_VARIANTS:
+        if build_tx(p, name, feats) is None:
             ok = False
     return 0 if ok else 2
 
@@ -489,7 +635,7 @@ def check(p, prop, tier, seed):
         return 2
     custom = cfg.get("custom")
     if custom:
-        return custom(p, prop, tier, seed, cfg)
+        return globals()[custom](p, prop, tier, seed, cfg)
     return vlib.generic_check(p, prop, tier, seed, cfg)
 
 
